@@ -46,6 +46,12 @@ func (c *CircuitFixed) Define(api frontend.API) error {
 	if len(publicInputs) != 16 {
 		return fmt.Errorf("expected 16 public inputs, got %d", len(publicInputs))
 	}
+	// The inner public-input hash only binds the limbs modulo the Goldilocks prime; without a
+	// width check limb + k*p would be accepted and the packing below would not be injective.
+	glChip := gl.New(api)
+	for _, publicInput := range publicInputs {
+		glChip.RangeCheckWithMaxBits(publicInput, 32)
+	}
 	for j := 0; j < 4; j++ {
 		publicInputLimb := frontend.Variable(0)
 		slicePub := publicInputs[j*4 : (j+1)*4]
